@@ -286,3 +286,37 @@ package lua
 //@ ensures  "handler-asked-for-one-result": old(isFn(mtEvent(ls, obj, event))) ==> ncalls() == old(ncalls()) + 1 && callfn(old(ncalls())) == fnid("(*LState).Call") && callargInt(old(ncalls()), 1) == 1 && callargInt(old(ncalls()), 2) == 1 && callargLV(old(ncalls()), 10) == old(mtEvent(ls, obj, event)) && callargLV(old(ncalls()), 11) == obj && result == callresLV(old(ncalls()), 10) && top(ls) == old(top(ls))
 //@ ensures  "no-handler": !old(isFn(mtEvent(ls, obj, event))) ==> ncalls() == old(ncalls()) && result == LNil && top(ls) == old(top(ls))
 //@ modifies everything
+
+// ---------------------------------------------------------------------------
+// concatenation (manual §2.5.4, "concat" event): stringConcat(L, total, last) is R[last-total+1] .. R[last-total+2] .. ...
+// .. R[last], right associative. Strings and numbers are joined directly; a pair with any other operand goes to the
+// __concat handler of the left, else of the right operand, called once with (lhs, rhs).
+// ---------------------------------------------------------------------------
+//@ define canConv(v LValue) bool = isStr(v) || isNum(v)
+//@ define allConv(L *LState, lo int, hi int) bool = forall k int :: lo <= k && k <= hi ==> canConv(L.reg.array[k])
+//@ define concatHandler(L *LState, lhs LValue, rhs LValue) LValue = ite(mtEvent(L, lhs, "__concat") != LNil, mtEvent(L, lhs, "__concat"), mtEvent(L, rhs, "__concat"))
+
+//@ func stringConcat [C01 C04 C18]
+//@ logged
+//@ requires L != nil && Inv_api(L) && L.G != nil && TabsOK(L) && total >= 1 && base(L) <= last - total + 1 && last < top(L) && (forall k int :: base(L) <= k && k < top(L) ==> valOK(L.reg.array[k]))
+//@ ensures  "discipline": Disc(L) && Inv_api(L) && top(L) == old(top(L)) && result != nil && (forall k int :: base(L) <= k && k < old(top(L)) ==> L.reg.array[k] == old(L.reg.array[k]))
+//@ ensures  "one-operand-is-returned-as-is": total == 1 ==> result == old(L.reg.array[last])
+//@ ensures  "strings-and-numbers-give-a-string": total >= 2 && old(allConv(L, last - total + 1, last)) ==> isStr(result)
+//@ ensures  "strings-and-numbers-never-reach-a-handler": old(allConv(L, last - total + 1, last)) ==> ncalls() == old(ncalls())
+//@ ensures  "pair-with-another-operand-goes-to-the-handler-left-then-right": total == 2 && !old(allConv(L, last - 1, last)) ==> isFn(old(concatHandler(L, L.reg.array[last-1], L.reg.array[last]))) && ncalls() == old(ncalls()) + 1 && callargLV(old(ncalls()), 10) == old(concatHandler(L, L.reg.array[last-1], L.reg.array[last])) && callargLV(old(ncalls()), 11) == old(L.reg.array[last-1]) && callargLV(old(ncalls()), 12) == old(L.reg.array[last]) && callargInt(old(ncalls()), 1) == 2 && callargInt(old(ncalls()), 2) == 1 && result == callresLV(old(ncalls()), 10)
+//@ raises when !allConv(L, last - total + 1, last)
+//@ modifies everything
+//@ loop 1 invariant Disc(L) && Inv_api(L) && TabsOK(L) && L.G == old(L.G) && top(L) == old(top(L)) && 0 <= total && total < old(total) && i - total == old(last - total) && valOK(rhs) && (forall k int :: base(L) <= k && k < old(top(L)) ==> L.reg.array[k] == old(L.reg.array[k])) && (forall k int :: base(L) <= k && k < top(L) ==> valOK(L.reg.array[k]))
+//@ loop 1 invariant total == old(total) - 1 ==> rhs == old(L.reg.array[last]) && ncalls() == old(ncalls()) && (old(total) == 2 ==> concatHandler(L, L.reg.array[last-1], rhs) == old(concatHandler(L, L.reg.array[last-1], L.reg.array[last])))
+//@ loop 1 invariant old(allConv(L, last - total + 1, last)) ==> ncalls() == old(ncalls()) && canConv(rhs) && (total < old(total) - 1 ==> isStr(rhs))
+//@ loop 1 invariant old(total) == 2 && total == 0 && !old(allConv(L, last - 1, last)) ==> isFn(old(concatHandler(L, L.reg.array[last-1], L.reg.array[last]))) && ncalls() == old(ncalls()) + 1 && callargLV(old(ncalls()), 10) == old(concatHandler(L, L.reg.array[last-1], L.reg.array[last])) && callargLV(old(ncalls()), 11) == old(L.reg.array[last-1]) && callargLV(old(ncalls()), 12) == old(L.reg.array[last]) && callargInt(old(ncalls()), 1) == 2 && callargInt(old(ncalls()), 2) == 1 && rhs == callresLV(old(ncalls()), 10)
+//@ loop 2 invariant Disc(L) && Inv_api(L) && TabsOK(L) && L.G == old(L.G) && top(L) == old(top(L)) && 0 <= total && total < old(total) && total < len(buf) && fresh(buf) && i - total == old(last - total) && (forall k int :: base(L) <= k && k < old(top(L)) ==> L.reg.array[k] == old(L.reg.array[k])) && (forall k int :: base(L) <= k && k < top(L) ==> valOK(L.reg.array[k]))
+//@ loop 2 invariant (old(allConv(L, last - total + 1, last)) ==> ncalls() == old(ncalls())) && (old(total) == 2 ==> old(allConv(L, last - 1, last)))
+
+// OP_CONCAT A B C: R(A) := R(B) .. ... .. R(C): exactly the operands R(B)..R(C) go to stringConcat, its value is stored
+//@ func jumpTable[OP_CONCAT] [C01 C04 C07]
+//@ requires Frame(L) && opA(inst) < nreg(L) && opB(inst) <= opC(inst) && opC(inst) < nreg(L) && IdxOK(L) && Inv_gfn(L) && regsValid(L) && lb(L) + nreg(L) <= top(L)
+//@ ensures  "via-stringConcat": result == 0 && ncalls() == old(ncalls()) + 1 && callfn(old(ncalls())) == fnid("stringConcat") && callargInt(old(ncalls()), 1) == opC(inst) - opB(inst) + 1 && callargInt(old(ncalls()), 2) == old(lb(L)) + opC(inst)
+//@ ensures  "stored": R(L, opA(inst)) == callresLV(old(ncalls()), 0) && Frame(L) && pc(L) == old(pc(L)) && L.currentFrame == old(L.currentFrame) && top(L) == old(top(L)) && (forall k int :: lb(L) <= k && k < old(top(L)) && k != lb(L) + opA(inst) ==> L.reg.array[k] == old(L.reg.array[k]))
+//@ raises when true
+//@ modifies everything
